@@ -70,6 +70,11 @@ CHECKS = {
         technique="TLA+ set semantics of IRDL attribute constraints with variable contexts (Constraints.tla) evaluated by TLC as reference for verifies()/infer() of real constraint objects built raw, through the simplifying constructors and from type hints",
         text="Seeded constraint trees (any/base/eq/set/anyof/allof/param/var, depth <=3) are built for real three ways (raw dataclasses; AnyOf.get / ParamAttrConstraint.get / AttrSetConstraint.get; the | and & operators - i.e. with and without union flattening/merging); verifies() on 18 builtin attributes is compared by TLC with Accepts; wherever can_infer() holds the inferred attribute must satisfy the constraint in the given context; constraints derived from type hints are compared with isa() and with the model of the hint.",
         note="Trusted: Constraints.tla; attributes serialised structurally (class, bases, parameters, payload). One open finding (AllOf.infer) keyed by clause + presence of an AllOf node."),
+    "C15": dict(
+        category="exploration", design_ref="DESIGN.md §3.1, §3.8, §4 C15",
+        technique="TLA+ bit-vector arithmetic on byte limbs (BV.tla, self-checked by TLC against integer arithmetic) and an operational semantics of func/arith/cf/scf (Machine.tla) executed by TLC as reference for results observed from the real interpreter",
+        text="Every arith op and cmpi predicate the interpreter implements is run by the real interpreter on every operand tuple for widths 1-4 and on boundary/random tuples for 8..64 and index; generated multi-op programs with scf.if / scf.for / cf branches and loops are run on boundary inputs; TLC executes the same programs under Machine.tla (one state per executed operation) and every result is compared as a bit pattern; results outside the type's signless range are flagged.",
+        note="Trusted: BV.tla / Machine.tla as MLIR semantics (BVCheck.tla compares BV with integer arithmetic for widths <=15). Floating point is not modelled (no floats in TLC). Ops the interpreter does not implement are listed in the evidence, not judged."),
 }
 
 NOT_APPLICABLE = {
